@@ -623,4 +623,283 @@ Proof.
     split; [exact W2|split; [exact E2|]]. intros n. left. apply X2.
 Qed.
 
-(* PART-C4 *)
+
+(* ---------------------------------------------------------------------------------------------- *)
+(* transport along steps that do not touch the worker's data                                       *)
+Lemma outstanding_ext s s' :
+  queue s' = queue s -> wk s' = wk s -> filt s' = filt s -> outstanding s' = outstanding s.
+Proof. intros Q K F. unfold outstanding, flt. rewrite Q, K, F. reflexivity. Qed.
+
+Lemma expects_ext s s' :
+  members s' = members s -> queue s' = queue s -> wk s' = wk s -> filt s' = filt s ->
+  forall n, expects s' n = expects s n.
+Proof. intros M Q K F n. unfold expects. rewrite (outstanding_ext s s' Q K F), M. reflexivity. Qed.
+
+Lemma WI_ext s s' :
+  members s' = members s -> queue s' = queue s -> wk s' = wk s -> filt s' = filt s -> log s' = log s ->
+  WI s -> WI s'.
+Proof.
+  intros M Q K F L [Ic Iq Iw Iv Im If]. split.
+  - intros n. rewrite (outstanding_ext s s' Q K F), M. apply Ic.
+  - rewrite Q. exact Iq.
+  - rewrite K. exact Iw.
+  - rewrite L, M. exact Iv.
+  - rewrite M. exact Im.
+  - rewrite L. exact If.
+Qed.
+
+(* ---------------------------------------------------------------------------------------------- *)
+(* _on_set_changed                                                                                 *)
+Lemma osc_outstanding ch t :
+  outstanding (on_set_changed ch t) =
+  outstanding t ++ [(filter (flt t) (diff (filter (flt t) ch) (nodes t)), diff (nodes t) (filter (flt t) ch))].
+Proof.
+  unfold outstanding, on_set_changed. cbn [wk queue set_queue set_nodes]. rewrite map_app, app_assoc. reflexivity.
+Qed.
+
+Lemma osc_expects ch t n :
+  expects (on_set_changed ch t) n =
+  (expects t n || (mem n ch && flt t n && negb (mem n (nodes t)))) &&
+  negb (mem n (nodes t) && negb (mem n ch && flt t n)).
+Proof.
+  unfold expects. rewrite osc_outstanding, fold_left_app. cbn [fold_left members on_set_changed set_queue set_nodes].
+  unfold bstep. cbn [fst snd]. rewrite mem_filter, !mem_diff, mem_filter.
+  destruct (fold_left _ _ _), (mem n ch), (flt t n), (mem n (nodes t)); reflexivity.
+Qed.
+
+Lemma osc_WI ch t :
+  WI t -> (forall n, expects t n = true -> mem n (nodes t) = true) -> NoDup ch ->
+  WI (on_set_changed ch t) /\
+  (forall n, expects (on_set_changed ch t) n = true -> mem n (nodes (on_set_changed ch t)) = true).
+Proof.
+  intros [Ic Iq Iw Iv Im If] E1 Hch. split; [split|].
+  - intros n. rewrite osc_outstanding, chain_ok_app. cbn [members on_set_changed set_queue set_nodes].
+    rewrite Ic. cbn [fst snd andb]. rewrite mem_filter, !mem_diff, mem_filter.
+    change (fold_b n (outstanding t) (mem n (members t))) with (expects t n).
+    specialize (E1 n). destruct (expects t n); [rewrite (E1 eq_refl)|];
+      destruct (mem n ch), (flt t n), (mem n (nodes t)); reflexivity.
+  - intros b Hb. cbn [queue on_set_changed set_queue set_nodes] in Hb. apply in_app_or in Hb as [Hb|[<-|[]]]; [apply Iq; exact Hb|].
+    cbn [fst]. apply NoDup_diff. apply NoDup_filter. exact Hch.
+  - exact Iw.
+  - exact Iv.
+  - exact Im.
+  - exact If.
+  - intros n. rewrite osc_expects. cbn [nodes on_set_changed set_queue set_nodes]. rewrite mem_filter.
+    specialize (E1 n). destruct (expects t n); [rewrite (E1 eq_refl)|];
+      destruct (mem n ch), (flt t n), (mem n (nodes t)); cbn; auto.
+Qed.
+
+Lemma osc_e2 t :
+  parent t = true ->
+  (forall n, mem n (nodes t) = true -> expects t n = false -> parent t && mem n (kids t) = false) ->
+  forall n, mem n (nodes (on_set_changed (kids t) t)) = true -> expects (on_set_changed (kids t) t) n = false ->
+            parent t && mem n (kids t) = false.
+Proof.
+  intros P E2 n. rewrite osc_expects. cbn [nodes on_set_changed set_queue set_nodes]. rewrite mem_filter.
+  specialize (E2 n). rewrite P in *. cbn [andb] in *.
+  destruct (mem n (kids t)), (flt t n), (mem n (nodes t)), (expects t n); cbn; auto; try discriminate.
+Qed.
+
+(* ---------------------------------------------------------------------------------------------- *)
+(* _send_all_removed                                                                               *)
+Lemma leave_all_log L : forall s,
+  (forall n, mem n (view (log s)) = mem n L) -> NoDup L -> wf_log (log s) = true ->
+  (forall n, mem n (view (log (leave_all L s))) = false) /\ wf_log (log (leave_all L s)) = true.
+Proof.
+  induction L as [|m r IH]; intros s Hv Hn Hw; cbn [leave_all].
+  - split; [intros n; rewrite Hv; reflexivity|exact Hw].
+  - inversion Hn as [|? ? Hm Hr]; subst. destruct (call_cb_log Leave m s) as (b & Lg).
+    apply IH; [|exact Hr|].
+    + intros n. rewrite Lg. cbn [view ev_kind ev_name]. rewrite mem_remove_z, Hv, mem_cons.
+      destruct (Z.eqb_spec n m) as [->|]; [|rewrite andb_true_r; reflexivity].
+      cbn. destruct (mem m r) eqn:E; [|reflexivity]. apply mem_In in E. contradiction.
+    + rewrite Lg. cbn [wf_log ev_kind ev_name]. rewrite Hw, Hv, mem_cons, Z.eqb_refl. reflexivity.
+Qed.
+
+Definition wenv2 (s : state) :=
+  (filt s, started s, parent s, pz s, zx s, kids s, dw s, cw s, pending s, dver s, watching s).
+
+Lemma sar_frame t :
+  wenv2 (send_all_removed t) = wenv2 t /\ members (send_all_removed t) = [] /\ nodes (send_all_removed t) = [] /\
+  queue (send_all_removed t) = queue t /\ wk (send_all_removed t) = wk t.
+Proof.
+  unfold send_all_removed.
+  destruct (leave_all_frame (members t) (set_members [] (set_nodes [] t))) as (A & B & Cq & D).
+  unfold wenv in A. unfold wenv2. cbn in A, B, Cq, D. injection A as A1 A2 A3 A4 A5 A6 A7 A8 A9 A10 A11 A12.
+  repeat split; try assumption. congruence.
+Qed.
+
+Lemma sar_WI t : WI t -> queue t = [] -> wk t = None -> WI (send_all_removed t).
+Proof.
+  intros [Ic Iq Iw Iv Im If] Q K. destruct (sar_frame t) as (_ & M & _ & Q' & K').
+  destruct (leave_all_log (members t) (set_members [] (set_nodes [] t)) Iv Im If) as (Lv & Lw).
+  fold (send_all_removed t) in Lv, Lw. split.
+  - intros n. unfold outstanding. rewrite K', K, Q', Q. reflexivity.
+  - rewrite Q', Q. intros b [].
+  - rewrite K', K. discriminate.
+  - intros n. rewrite Lv, M. reflexivity.
+  - rewrite M. constructor.
+  - exact Lw.
+Qed.
+
+Lemma sar_expects t n : queue t = [] -> wk t = None -> expects (send_all_removed t) n = false.
+Proof.
+  intros Q K. destruct (sar_frame t) as (_ & M & _ & Q' & K').
+  unfold expects, outstanding. rewrite K', K, Q', Q, M. reflexivity.
+Qed.
+
+
+(* ---------------------------------------------------------------------------------------------- *)
+(* invariants                                                                                      *)
+Definition cur_ver (s : state) : option Z := if parent s then Some (pz s) else None.
+
+(* InvA: holds along every history that respects the fence guard G1 *)
+Record InvA (s : state) : Prop := {
+  ia_pre : started s = false ->
+           dw s = false /\ cw s = 0%nat /\ pending s = [] /\ queue s = [] /\ wk s = None /\
+           members s = [] /\ nodes s = [] /\ log s = [] /\ dver s = None /\ watching s = false;
+  ia_absent : parent s = false -> kids s = [] /\ cw s = 0%nat;
+  ia_kids : NoDup (kids s);
+  ia_dw : started s = true -> ((if dw s then 1 else 0) + count_pd (pending s) = 1)%nat;
+  ia_ver : dw s = true -> dver s = cur_ver s;
+  ia_watching : watching s = match dver s with Some _ => true | None => false end;
+  ia_fresh : (1 <= cw s)%nat -> forall n, mem n (nodes s) = mem n (filter (flt s) (kids s));
+  ia_wi : WI s;
+  ia_e1 : forall n, expects s n = true -> mem n (nodes s) = true }.
+
+Ltac sp := cbn [filt started parent pz zx kids dw cw pending dver watching nodes members queue wk armed log
+                set_started set_parent set_pz set_zx set_kids set_dw set_cw set_pending set_dver set_watching
+                set_nodes set_members set_queue set_wk set_armed set_log] in *.
+
+Lemma invA_init f : InvA (init f).
+Proof.
+  split; cbn; try discriminate; auto.
+  - intros _. repeat split.
+  - constructor.
+  - lia.
+  - split; cbn; try discriminate; auto. intros b []. constructor.
+  - intros n. unfold expects. cbn. discriminate.
+Qed.
+
+(* steps that only touch the tree and the watches *)
+Lemma invA_env s s' :
+  InvA s ->
+  filt s' = filt s -> started s' = started s -> dver s' = dver s -> watching s' = watching s ->
+  nodes s' = nodes s -> members s' = members s -> queue s' = queue s -> wk s' = wk s -> log s' = log s ->
+  (started s = false -> dw s' = false /\ cw s' = 0%nat /\ pending s' = []) ->
+  (parent s' = false -> kids s' = [] /\ cw s' = 0%nat) ->
+  NoDup (kids s') ->
+  (started s = true -> ((if dw s' then 1 else 0) + count_pd (pending s') = 1)%nat) ->
+  (dw s' = true -> dver s = cur_ver s') ->
+  ((1 <= cw s')%nat -> forall n, mem n (nodes s) = mem n (filter (flt s) (kids s'))) ->
+  InvA s'.
+Proof.
+  intros [Ipre Iabs Ikids Idw Iver Iwat Ifresh Iwi Ie1] F S D W N M Q K L O1 O2 O3 O4 O5 O6. split.
+  - rewrite S. intros H. destruct (Ipre H) as (_ & _ & _ & a & b & c & d & e & f & g). destruct (O1 H) as (x & y & z).
+    rewrite Q, K, M, N, L, D, W. repeat split; assumption.
+  - exact O2.
+  - exact O3.
+  - rewrite S. exact O4.
+  - rewrite D. exact O5.
+  - rewrite W, D. exact Iwat.
+  - intros H n. rewrite N. unfold flt. rewrite F. apply (O6 H).
+  - apply (WI_ext s s'); assumption.
+  - intros n. rewrite (expects_ext s s' M Q K F), N. apply Ie1.
+Qed.
+
+Lemma count_pd_fire p k : count_pd (p ++ repeat PChild k) = count_pd p.
+Proof. rewrite count_pd_app, count_pd_repeat. lia. Qed.
+
+Lemma invA_create_parent s : InvA s -> InvA (step s CreateParent).
+Proof.
+  intros I. cbn [step]. destruct (parent s) eqn:P; [exact I|].
+  pose proof I as [Ipre Iabs Ikids Idw Iver Iwat Ifresh Iwi Ie1]. destruct (Iabs P) as (Kd & Cw).
+  unfold fire_data. sp. destruct (dw s) eqn:Edw.
+  - apply (invA_env s); try reflexivity; sp; auto; try discriminate.
+    + intros H. destruct (Ipre H) as (X & _). congruence.
+    + intros H. specialize (Idw H). rewrite count_pd_app. cbn. lia.
+    + rewrite Cw. lia.
+  - apply (invA_env s); try reflexivity; sp; auto; try discriminate.
+    + intros H. destruct (Ipre H) as (_ & X & Y & _). auto.
+    + rewrite Edw. discriminate.
+    + rewrite Cw. lia.
+Qed.
+
+Lemma invA_touch_parent s : InvA s -> InvA (step s TouchParent).
+Proof.
+  intros I. cbn [step]. destruct (parent s) eqn:P; [|exact I].
+  pose proof I as [Ipre Iabs Ikids Idw Iver Iwat Ifresh Iwi Ie1].
+  unfold fire_data. sp. destruct (dw s) eqn:Edw.
+  - apply (invA_env s); try reflexivity; sp; auto; try discriminate.
+    + intros H. destruct (Ipre H) as (X & _). congruence.
+    + rewrite P. discriminate.
+    + intros H. specialize (Idw H). rewrite count_pd_app. cbn. lia.
+  - apply (invA_env s); try reflexivity; sp; auto; try discriminate.
+    + intros H. destruct (Ipre H) as (_ & X & Y & _). auto.
+    + rewrite P. discriminate.
+    + rewrite Edw. discriminate.
+Qed.
+
+Lemma invA_delete_parent s : InvA s -> InvA (step s DeleteParent).
+Proof.
+  intros I. cbn [step]. destruct (parent s) eqn:P; [|exact I].
+  pose proof I as [Ipre Iabs Ikids Idw Iver Iwat Ifresh Iwi Ie1].
+  assert (Pre : started s = false -> dw s = false /\ cw s = 0%nat /\ pending s = []).
+  { intros H. destruct (Ipre H) as (X & Y & Z & _). auto. }
+  set (s1 := match kids s with [] => s | _ :: _ => fire_children s end).
+  assert (S1 : filt s1 = filt s /\ started s1 = started s /\ dver s1 = dver s /\ watching s1 = watching s /\
+               nodes s1 = nodes s /\ members s1 = members s /\ queue s1 = queue s /\ wk s1 = wk s /\ log s1 = log s /\
+               dw s1 = dw s /\ count_pd (pending s1) = count_pd (pending s) /\
+               (started s = false -> pending s1 = [] /\ cw s1 = 0%nat)).
+  { subst s1. destruct (kids s); [repeat split; auto; intros H; destruct (Pre H) as (_ & X & Y); auto|].
+    unfold fire_children. sp. repeat split; auto; [apply count_pd_fire|].
+    intros H. destruct (Pre H) as (_ & X & Y). rewrite X, Y. reflexivity. }
+  destruct S1 as (a1 & a2 & a3 & a4 & a5 & a6 & a7 & a8 & a9 & a10 & a11 & a12).
+  unfold fire_data, fire_children. sp. rewrite a10. destruct (dw s) eqn:Edw; sp.
+  - apply (invA_env s); sp; auto; try discriminate.
+    + intros H. destruct (Pre H) as (X & _). congruence.
+    + constructor.
+    + intros H. specialize (Idw H). rewrite count_pd_fire, count_pd_app, a11. cbn. lia.
+    + lia.
+  - apply (invA_env s); sp; auto; try discriminate.
+    + intros H. destruct (a12 H) as (X & Y). rewrite X, Y. auto.
+    + constructor.
+    + intros H. specialize (Idw H). rewrite Edw, count_pd_fire, a11. exact Idw.
+    + rewrite Edw. discriminate.
+    + lia.
+Qed.
+
+Lemma invA_create n s : InvA s -> InvA (step s (Create n)).
+Proof.
+  intros I. cbn [step]. destruct (parent s && negb (mem n (kids s))) eqn:C; [|exact I].
+  apply andb_true_iff in C as [P C]. apply negb_true_iff in C.
+  pose proof I as [Ipre Iabs Ikids Idw Iver Iwat Ifresh Iwi Ie1].
+  unfold fire_children. sp. apply (invA_env s); try reflexivity; sp; auto; try discriminate.
+  - intros H. destruct (Ipre H) as (X & Y & Z & _). rewrite Y, Z. auto.
+  - rewrite P. discriminate.
+  - constructor; [|exact Ikids]. intros H. apply mem_In in H. congruence.
+  - intros H. rewrite count_pd_fire. apply Idw. exact H.
+  - lia.
+Qed.
+
+Lemma invA_delete n s : InvA s -> InvA (step s (Delete n)).
+Proof.
+  intros I. cbn [step]. destruct (parent s && mem n (kids s)) eqn:C; [|exact I].
+  apply andb_true_iff in C as [P C].
+  pose proof I as [Ipre Iabs Ikids Idw Iver Iwat Ifresh Iwi Ie1].
+  unfold fire_children. sp. apply (invA_env s); try reflexivity; sp; auto; try discriminate.
+  - intros H. destruct (Ipre H) as (X & Y & Z & _). rewrite Y, Z. auto.
+  - rewrite P. discriminate.
+  - apply NoDup_remove_z. exact Ikids.
+  - intros H. rewrite count_pd_fire. apply Idw. exact H.
+  - lia.
+Qed.
+
+Lemma invA_raise s : InvA s -> InvA (step s CallbackRaises).
+Proof.
+  intros I. pose proof I as [Ipre Iabs Ikids Idw Iver Iwat Ifresh Iwi Ie1]. cbn [step].
+  apply (invA_env s); try reflexivity; sp; auto.
+  intros H. destruct (Ipre H) as (X & Y & Z & _). auto.
+Qed.
+
+(* PART-C6 *)
